@@ -143,15 +143,48 @@ type view struct {
 }
 
 func (h *harness) observe() view {
+	// registry first: whoever is registered and alive is then part of the snapshot taken afterwards
+	entries, _ := readRegistry(h.registry)
 	all := scanAll()
 	desc := descendantsOf(all, h.self.Pid)
+	regGen := map[[2]uint64]int{} // identity -> generation (pid of the root that built it)
+	regRoot := map[[2]uint64]bool{}
+	for _, e := range entries {
+		if e.Pid != 0 {
+			g, _ := strconv.Atoi(e.Gen)
+			regGen[ident(e.Pid, e.StartTime)] = g
+			regRoot[ident(e.Pid, e.StartTime)] = e.ID == "0"
+		}
+	}
+	// After Restart a new generation is legitimately running: its root is a child of the harness that
+	// did not exist before the stop and is a group leader (or registered itself as a root).
 	newRoots := map[int]bool{}
 	if h.cs.Stop == "Restart" && h.preStop != nil {
 		for _, d := range desc {
-			if d.PPid == h.self.Pid && d.Pgrp == d.Pid && d.Sid == h.self.Sid && !h.preStop[ident(d.Pid, d.StartTime)] {
+			id := ident(d.Pid, d.StartTime)
+			if d.PPid == h.self.Pid && d.Sid == h.self.Sid && !h.preStop[id] && (d.Pgrp == d.Pid || regRoot[id]) {
 				newRoots[d.Pid] = true
 			}
 		}
+	}
+	inNewGen := func(d pstat) bool {
+		if len(newRoots) == 0 {
+			return false
+		}
+		if newRoots[d.Pgrp] || newRoots[regGen[ident(d.Pid, d.StartTime)]] {
+			return true
+		}
+		for cur, depth := d, 0; depth < 64; depth++ {
+			if newRoots[cur.Pid] {
+				return true
+			}
+			next, ok := all[cur.PPid]
+			if !ok || cur.PPid == h.self.Pid {
+				return false
+			}
+			cur = next
+		}
+		return false
 	}
 	var v view
 	for _, d := range desc {
@@ -159,9 +192,9 @@ func (h *harness) observe() view {
 			continue
 		}
 		switch {
-		case d.Sid != h.self.Sid || d.Pgrp == h.self.Pgrp:
+		case d.Sid != h.self.Sid: // setsid()'ed: left the group
 			v.exempt = append(v.exempt, d)
-		case newRoots[d.Pgrp]:
+		case inNewGen(d):
 			v.newGen = append(v.newGen, d)
 		default:
 			v.in = append(v.in, d)
@@ -172,7 +205,6 @@ func (h *harness) observe() view {
 	for _, d := range v.in {
 		seen[ident(d.Pid, d.StartTime)] = true
 	}
-	entries, _ := readRegistry(h.registry)
 	for _, e := range entries {
 		if e.Pid == 0 || strings.Contains(e.Flags, "s") {
 			continue
@@ -181,7 +213,7 @@ func (h *harness) observe() view {
 		if newRoots[gen] {
 			continue
 		}
-		if st, ok := stillSame(e.Pid, e.StartTime); ok && st.Pgrp == gen && st.Sid == h.self.Sid && !seen[ident(e.Pid, e.StartTime)] {
+		if st, ok := stillSame(e.Pid, e.StartTime); ok && st.Sid == h.self.Sid && !seen[ident(e.Pid, e.StartTime)] {
 			v.in = append(v.in, st)
 			h.res.RegistryOnly++
 		}
@@ -233,7 +265,7 @@ func (h *harness) observeFast() (v view) {
 		if !mine[st.Pid] || !st.alive() || !isThreadGroupLeader(st.Pid) {
 			continue // /proc/<tid> also answers for threads, which readdir never lists
 		}
-		if st.Sid != h.self.Sid || st.Pgrp == h.self.Pgrp {
+		if st.Sid != h.self.Sid {
 			v.exempt = append(v.exempt, st)
 		} else {
 			v.in = append(v.in, st)
@@ -627,12 +659,19 @@ func (h *harness) run(loggers *memLoggers) {
 		// the stop is over. Signalled processes get time to die; what is then alive with no fatal
 		// signal pending was not terminated.
 		var v view
+		empty := 0
 		for start := time.Now(); ; {
 			v = h.observe()
 			h.note(v.in)
 			if len(v.in) == 0 && (!checkIsOn || !isOn()) {
-				break
+				// /proc is not read atomically: a process whose parent died mid-scan can be missed
+				// once, so "nobody left" needs two consecutive observations
+				if empty++; empty >= 2 {
+					break
+				}
+				continue
 			}
+			empty = 0
 			if time.Since(start) > boundGrace {
 				break
 			}
